@@ -132,6 +132,64 @@ def contains_call_attr(node: ast.AST, attr_names: Iterable[str]) -> bool:
     return False
 
 
+def append_counts(body: List[ast.stmt], acc: str, is_append=None) -> Set[Tuple[int, str]]:
+    """Per-iteration append profile of a loop body: the set of (number of appends to `acc`, exit kind) over the
+    non-raising paths through `body`; counts saturate at 3, exit kinds are 'fall', 'continue', 'break', 'return'.
+    Nested loops that append to `acc` make the count 3 ("many")."""
+    def is_app(st):
+        if is_append is not None:
+            return is_append(st)
+        return isinstance(st, ast.Expr) and isinstance(st.value, ast.Call) and isinstance(st.value.func, ast.Attribute) and \
+            st.value.func.attr in ("append",) and dotted(st.value.func.value) == acc
+
+    def seq(stmts, states):
+        # states: set of counts for paths still running; returns (running, finished)
+        finished = set()
+        for st in stmts:
+            if not states:
+                break
+            nxt = set()
+            if isinstance(st, ast.Raise):
+                states = set()
+                break
+            if isinstance(st, (ast.Continue, ast.Break, ast.Return)):
+                kind = {ast.Continue: "continue", ast.Break: "break", ast.Return: "return"}[type(st)]
+                finished |= {(c, kind) for c in states}
+                states = set()
+                break
+            if isinstance(st, ast.If):
+                a, fa = seq(st.body, set(states))
+                b, fb = seq(st.orelse, set(states))
+                finished |= fa | fb
+                nxt = a | b
+            elif isinstance(st, (ast.For, ast.While)):
+                inner = any(is_app(s) for s in ast.walk(st) if isinstance(s, ast.stmt))
+                nxt = {3} | set(states) if inner else set(states)
+            elif isinstance(st, ast.Try):
+                a, fa = seq(st.body + st.orelse, set(states))
+                finished |= fa
+                nxt = a
+                for h in st.handlers:
+                    hb, fh = seq(h.body, set(states) | a)
+                    finished |= fh
+                    nxt |= hb
+                if st.finalbody:
+                    nxt, ff = seq(st.finalbody, nxt)
+                    finished |= ff
+            elif isinstance(st, ast.With):
+                nxt, fw = seq(st.body, set(states))
+                finished |= fw
+            elif is_app(st):
+                nxt = {min(3, c + 1) for c in states}
+            else:
+                nxt = set(states)
+            states = nxt
+        return states, finished
+
+    running, finished = seq(body, {0})
+    return {(c, "fall") for c in running} | finished
+
+
 class RuleProxy:
     """Report view that files every obligation of a borrowed rule module under one rule id of the borrowing property."""
 
